@@ -16,7 +16,26 @@ Definition run_start (s : store Spec) (fa : nat) : store Spec * Z :=
 Inductive action :=
 | AInst (m : modul) (code : Z)                                   (* observed result class of the instantiation *)
 | ACall (mn fi : nat) (args : list Z) (o : obs)                  (* function fi (module index space) of the mn-th instantiation *)
-| ASnap (mn : nat) (globals : list Z) (mem : list (Z * Z)) (pages : Z). (* that instance's view: all globals, non-zero bytes, pages (-1: no memory) *)
+| ASnap (mn : nat) (globals : list Z) (mem : list (Z * Z)) (pages : Z) (* that instance's view: all globals, non-zero bytes, pages (-1: no memory) *)
+| ATabGrow (mn : nat) (n : Z) (res : Z).                         (* table.grow by n (ref.null) executed by the mn-th instantiation on its table; observed result *)
+
+(* table.grow is not an instruction of W: the action acts on the store directly, as TableInstance.Grow does
+   (no growth by 0; failure, result 2^32-1, beyond the declared maximum or at 2^32-1 elements; else the old length) *)
+Definition tab_grow (st : lstore) (mm : list (option nat)) (mn : nat) (n : Z) : option (lstore * Z) :=
+  match nth mn mm None with
+  | None => None
+  | Some ii =>
+      match i_tab (the_inst Spec (ls st) ii) with
+      | None => None
+      | Some ta =>
+          let t := nth ta (s_tabs (ls st)) [] in
+          let '(_, hm, mx, _) := nth ta (ls_t st) (0, false, 0, 0) in
+          let len := Z.of_nat (length t) in
+          if n =? 0 then Some (st, len)
+          else if (4294967295 <=? len + n) || (hm && (mx <? len + n)) then Some (st, 4294967295)
+          else Some (with_ls st (set_tabs (ls st) (upd (s_tabs (ls st)) ta (t ++ repeat None (Z.to_nat n)))), len)
+      end
+  end.
 
 (* element segments the specification treats differently from store.go (evaluated on the allocated store) *)
 Definition nonempty_elems (m : modul) : list (cexpr * list (option nat)) :=
@@ -69,6 +88,11 @@ Fixpoint run_actions (L : Z) (st : lstore) (mm : list (option nat)) (acts : list
                      else [(i, 1, match res with RTrap t => trap_code t | _ => -1 end)]
               end
           end
+      end
+  | ATabGrow mn n res :: r =>
+      match tab_grow st mm mn n with
+      | None => [(i, 1, -2)]
+      | Some (st', out) => if out =? res then run_actions L st' mm r (i + 1) else [(i, 1, out)]
       end
   | ASnap mn gl mem pages :: r =>
       match nth mn mm None with
